@@ -4,15 +4,15 @@ CONSTANTS
   RenderSetsType = FALSE
   BodilessByLine = FALSE
   ForgetCloseOnFault = FALSE
-  StaleLengthOnRenderFault = FALSE
-  Tier = "quick"
-  Ifaces = {"wsgi", "wsgifw", "asgi"}
-  Codes = {200, 204, 304, 100, 299}
-  Methods = {"GET", "HEAD"}
+  StaleLengthOnRenderFault = TRUE
+  Tier = "tiny"
+  Ifaces = {"wsgi", "asgi"}
+  Codes = {200, 204}
+  Methods = {"GET"}
   TextLens <- L_5
-  DataLens <- L_04
+  DataLens <- L_no
   MediaLens <- L_7
-  SseCounts <- S_2
+  SseCounts <- S_no
   PresetCLs <- CL_3
 INVARIANT ExactlyOneStart
 INVARIANT OnlyLastHasNoMoreBody
